@@ -10,7 +10,7 @@
  *                           for searches and comparisons; every byte value for the case functions
  *   num   fmt_* / scan_*  : boundary values (0, 9, 10, 2^31, 2^32, 2^64-1 ...) round trip; scan_ulong/scan_8long on every digit
  *                           string of length <= 3 followed by every byte value as terminator
- *   ctl <dir> <maxlen>    : control_readline/readint/readfile/rldef on every file body over {LF,#,SP,TAB,a,7,NUL} up to maxlen,
+ *   ctl <dir> <maxlen>    : control_readline/readint/readfile/rldef on every file body over {LF,#,SP,TAB,a,7} up to maxlen,
  *                           absent files, unreadable files (ELOOP, ENOTDIR), with and without control/me, against a reference written
  *                           from qmail-control(5)
  */
@@ -238,7 +238,7 @@ static void mode_num(void)
 static int ref_strip(const char *s, int n) { while (n > 0 && (s[n - 1] == '\n' || s[n - 1] == ' ' || s[n - 1] == '\t')) n--; return n; }
 static void mode_ctl(const char *dir, int maxlen)
 {
-  static const char al[] = { '\n', '#', ' ', '\t', 'a', '7', 0 }; int n, idx[16], withme; char s[16];
+  static const char al[] = { '\n', '#', ' ', '\t', 'a', '7' }; int n, idx[16], withme; char s[16];   /* no NUL: what a NUL inside a control file means is not documented */
   if (chdir(dir) == -1) h_real_exit(2);
   mkdir("control", 0755); mkdir("control/isdir", 0755); if (symlink("loop", "control/loop") == -1 && errno != EEXIST) h_real_exit(2);
   { int fd = open("control/plainfile", O_WRONLY | O_CREAT | O_TRUNC, 0644); if (fd < 0) h_real_exit(2); close(fd); }
@@ -278,7 +278,7 @@ static void mode_ctl(const char *dir, int maxlen)
         n_nontrivial++;
       } while (h_odo_next(idx, n, sizeof al)); }
   }
-  H_SAMPLE("control_readfile/readline/readint/rldef on every body over {LF,#,SP,TAB,a,7,NUL} up to length %d, absent and unreadable files, with and without control/me", maxlen);
+  H_SAMPLE("control_readfile/readline/readint/rldef on every body over {LF,#,SP,TAB,a,7} up to length %d, absent and unreadable files, with and without control/me", maxlen);
 }
 
 /* ------------------------------------------------------------------------------------------------ map: constmap */
